@@ -60,3 +60,23 @@ End Footprint.
     prologue before it is read, or explicitly justified *)
 Definition covered (written resets prologue justified : list string) : bool :=
   forallb (fun f => existsb (String.eqb f) resets || existsb (String.eqb f) prologue || existsb (String.eqb f) justified) written.
+
+(** Memoised functions (lru_cache and the like): their kept results are state that start_page does not reset.  One is
+    accounted for when it is listed with a reason (it depends only on its arguments and on the pages table) and every
+    function that writes the pages table keeps it fresh: it clears the memo itself, or it is only a helper - it is called
+    from other functions of the package and each of them clears the memo.  The four lists come from translate/fields.py:
+    "f>m" in [clears] says f calls m.cache_clear(), "f>w" in [calls] says f calls the store writer w. *)
+Local Open Scope string_scope.
+Definition mem_s (f : string) (l : list string) : bool := existsb (String.eqb f) l.
+Definition ends_with (suf c : string) : bool :=
+  let n := String.length c in let k := String.length suf in
+  Nat.leb k n && String.eqb (substring (n - k) k c) suf.
+Definition caller_part (suf c : string) : string := substring 0 (String.length c - String.length suf) c.
+Definition writer_keeps_fresh (clears calls : list string) (m w : string) : bool :=
+  mem_s (w ++ ">" ++ m) clears
+  || (let suf := ">" ++ w in
+      existsb (ends_with suf) calls &&
+      forallb (fun c => if ends_with suf c then mem_s (caller_part suf c ++ ">" ++ m) clears else true) calls).
+Definition memo_covered (memo writers clears calls justified : list string) : bool :=
+  forallb (fun m => mem_s m justified) memo &&
+  forallb (fun m => forallb (writer_keeps_fresh clears calls m) writers) memo.
